@@ -23,6 +23,11 @@ pub enum Doc {
 pub struct Spec {
     pub doc: Doc,
     pub key: KeySpec,
+    /// history in the same process before anything is signed: bit 0 = the document's JSON tree is
+    /// written by the library's strict canonical writer (Json::canonicalize) first; bit 1 = a canonicalisation
+    /// of the same tree plus a trailing non-integer member fails half-way first
+    #[serde(default)]
+    pub prelude: u8,
 }
 
 impl Doc {
@@ -149,7 +154,7 @@ impl Property for C11 {
          signature made with ring directly over OLPC-canonical-JSON(to_value(metadata)) (harness encoder: only \\ and \" escaped, raw UTF-8) \
          and attached to the wire document is accepted by Metablock::verify; (2) the Ed25519 signature the library makes equals ring's \
          signature over those reference bytes; (3) key_id == hex(sha256(OLPC(key description))). Non-trivial: some signed string contains a \
-         character outside printable ASCII or a backslash/quote; distinct by document."
+         character outside printable ASCII or a backslash/quote; distinct by document. History: before anything is signed, in half of the cases the same JSON tree is first written by the strict canonical writer (Json::canonicalize) and/or a canonicalisation of the tree extended by a trailing member 1.5 fails half-way, in the same process."
             .into()
     }
     fn assumptions() -> Vec<String> {
@@ -162,14 +167,14 @@ impl Property for C11 {
         tier.pick(40_000, 1_000_000)
     }
     fn strategy(_tier: Tier) -> BoxedStrategy<Spec> {
-        (doc_strategy(false), prop_oneof![8 => ed_key(), 1 => any_key()]).prop_map(|(doc, key)| Spec { doc, key }).boxed()
+        (doc_strategy(false), prop_oneof![8 => ed_key(), 1 => any_key()], prop_oneof![3 => Just(0u8), 1 => Just(1u8), 1 => Just(2u8), 1 => Just(3u8)]).prop_map(|(doc, key, prelude)| Spec { doc, key, prelude }).boxed()
     }
     fn enumerate(_tier: Tier, worker: usize, workers: usize) -> Box<dyn Iterator<Item = Spec>> {
         let table = two_char_table();
         let mut specs: Vec<Spec> = vec![];
         for f in 0..16 {
             for s in &table {
-                specs.push(Spec { doc: doc_with_text(f, s), key: KeySpec::Ed { seed: 2, pkcs8: false } });
+                specs.push(Spec { doc: doc_with_text(f, s), key: KeySpec::Ed { seed: 2, pkcs8: false }, prelude: (f % 4) as u8 });
             }
         }
         let total = (0x110000u32 + SCALARS_PER_CASE - 1) / SCALARS_PER_CASE;
@@ -183,7 +188,7 @@ impl Property for C11 {
                 _ => unreachable!(),
             };
             d.env = Some([(s.clone(), "v".to_string())].into());
-            Some(Spec { doc: Doc::Link(d), key: KeySpec::Ed { seed: 3, pkcs8: true } })
+            Some(Spec { doc: Doc::Link(d), key: KeySpec::Ed { seed: 3, pkcs8: true }, prelude: (i % 4) as u8 })
         });
         Box::new(specs.into_iter().chain(it2).enumerate().filter(move |(i, _)| i % workers == worker).map(|(_, s)| s))
     }
@@ -216,6 +221,20 @@ impl Property for C11 {
         }
         let tree = serde_json::to_value(&meta).expect("to_value");
         let reference = olpc_value(&tree).expect("integer-only metadata");
+        if spec.prelude & 1 != 0 {
+            use in_toto::interchange::{DataInterchange, Json};
+            let _ = Json::canonicalize(&tree);
+            o.class("prelude:strict-canonical-writer-first");
+        }
+        if spec.prelude & 2 != 0 {
+            use in_toto::interchange::{DataInterchange, Json};
+            let mut t2 = tree.clone();
+            if let Some(m) = t2.as_object_mut() {
+                m.insert("~wall-clock-seconds".into(), json!(1.5));
+            }
+            let _ = Json::canonicalize(&t2);
+            o.class("prelude:failed-canonicalisation-first");
+        }
         let sk = private(&spec.key);
         let pk = sk.public().clone();
 
